@@ -55,6 +55,9 @@ pub struct Spec {
     /// pack ids are the caller's choice and need not be dense: the extra pack with logical number
     /// `l` (2..) gets the id `l + id_gap * (l - 1)`  (0 = dense ids 2, 3, …)
     pub id_gap: u16,
+    /// hand the extra packs to `finalize` highest logical number first: the manifest then lists
+    /// the content packs out of increasing-id order (ids stay what `pack_id` says)
+    pub rev_extras: bool,
 }
 
 impl Spec {
@@ -159,6 +162,9 @@ pub fn build_with_progress(
         );
         store.entry_store.add_entry(e);
         store.count += 1;
+    }
+    if spec.rev_extras {
+        extras.reverse();
     }
     creator.finalize(store, extras).map_err(|e| format!("finalize: {e}"))?;
     Ok(out)
@@ -429,7 +435,8 @@ pub fn random_spec(rng: &mut crate::rng::Rng, mode: Mode, comp: Comp, max_items:
     }
     // derived from the content, not drawn: keeps the random stream of every caller as it was
     let id_gap = if extra_packs > 0 { [0u16, 0, 1, 6][(crate::out::fnv(&items[0].data) % 4) as usize] } else { 0 };
-    Spec { mode, comp, items, extra_packs, id_gap }
+    let rev_extras = extra_packs >= 2 && (crate::out::fnv(&items[0].name) % 2 == 0);
+    Spec { mode, comp, items, extra_packs, id_gap, rev_extras }
 }
 
 /// for every content pack found in every file of `dir`, write the decompressed compressed clusters
